@@ -37,6 +37,20 @@ c=' '.join(m.get('commands_run',[]))
 mm=re.search(r'>> (src/\S+\.rs)',c)
 print(mm.group(1) if mm else 'src/lib.rs')
 ")
+    local itest=$(python3 -c "
+import json,re
+m=json.load(open('$S/meta.json'))
+c=' '.join(m.get('commands_run',[]))
+mm=re.search(r'tests/(\w+)\.rs',c)
+print(mm.group(1) if mm else '')
+")
+    if [ -n "$itest" ]; then
+      mkdir -p $WT/tests && cp $S/demo_test.rs $WT/tests/$itest.rs
+      ( cd $WT && cargo test --offline --release --test $itest ) > $S/verify_demo.log 2>&1
+      local rc=$?
+      rm -rf $WT/tests
+      return $rc
+    fi
     cat $S/demo_test.rs >> $WT/$tgt
     ( cd $WT && cargo test --offline --lib --release ) > $S/verify_demo.log 2>&1
     local rc=$?
